@@ -159,6 +159,8 @@ def Shape.Ok (S : Shape) : Prop :=
   (∀ j, j < S.K → ∀ i, i < S.nb → 2 ≤ i →
       S.at (S.at j i).2 i = (opp (S.at j i).1, j) ∧ ((S.at j i).1 = 0 → (S.at j i).2 ≠ j))
 
+set_option synthInstance.maxSize 4096 in
+set_option synthInstance.maxHeartbeats 400000 in
 instance (S : Shape) : Decidable S.Ok := by unfold Shape.Ok; exact inferInstance
 
 /-- neighbour relation: `(ix', iy', iz')` is the cell reached from `(ix, iy, iz)` in direction `dir` -/
@@ -254,13 +256,16 @@ theorem gridMap_β (nb nd : Nat) (β : Nat → Nat → Nat) (i d : Nat) :
       · simp [h0]
       · have : d ≤ nd := by omega
         simp [hi, h0, this]
-    · rw [rd_oob _ _ (by rw [size_tab]; omega)]
+    · have e : rd (tab (nd + 1) fun d => if d = 0 then 0 else β i d) d = default :=
+        rd_oob _ _ (by rw [size_tab]; omega)
+      rw [e]
       have : ¬ d ≤ nd := by omega
       simp [this]
-      rfl
-  · rw [rd_oob _ _ (by rw [size_tab]; omega)]
+  · have e : rd (tab nb fun i => tab (nd + 1) fun d => if d = 0 then 0 else β i d) i = default :=
+      rd_oob _ _ (by rw [size_tab]; omega)
+    rw [e]
     simp only [hi, false_and, if_false]
-    exact rd_oob _ _ (Nat.zero_le _)
+    exact rd_oob (default : Array Nat) d (Nat.zero_le _)
 
 theorem gridMap_unused (nb nd : Nat) (β : Nat → Nat → Nat) (d : Nat) :
     (gridMap nb nd β).unused d = false := by
@@ -278,6 +283,7 @@ theorem gridMap_sized (nb nd : Nat) (β : Nat → Nat → Nat) : Sized nb (gridM
     unfold gridMap
     simp only
     rw [rd_tab _ _ _ hi, size_tab]
+    rfl
   usz := by unfold gridMap Map.empty; simp
   asz := by
     intro s hs
